@@ -2250,6 +2250,241 @@ def r6(ctx: RuleCtx) -> None:
                          f'({"follows symlinks: a dangling link at the destination is not removed" if "lexists" not in used else "no-follow probe present"})')
 
 
+# =============================================================================================
+# R7 mutate-while-iterate (K4) and in-place pruning of os.walk's directory list
+
+RESTRUCTURE = {'remove', 'pop', 'insert', 'append', 'extend', 'clear', 'sort', 'reverse', 'popitem', 'add', 'discard', 'update', 'setdefault',
+               'appendleft', 'popleft', 'extendleft'}
+COPY_CALLS = {'list', 'tuple', 'sorted', 'set', 'frozenset', 'dict', 'copy.copy', 'copy.deepcopy'}
+VIEW_METHODS = {'items', 'keys', 'values'}
+
+
+def _iter_base(e: ast.AST) -> T.Tuple[T.Optional[str], bool]:
+    """(the collection object the loop draws from, is the iteration over a snapshot of it?)"""
+    if attr_chain(e) is not None:
+        return attr_chain(e), False
+    if isinstance(e, ast.Subscript) and isinstance(e.slice, ast.Slice) and e.slice.lower is None and e.slice.upper is None and attr_chain(e.value):
+        return attr_chain(e.value), True
+    if isinstance(e, ast.Call):
+        f = attr_chain(e.func) or ''
+        if f in COPY_CALLS and len(e.args) >= 1 and attr_chain(e.args[0]):
+            return attr_chain(e.args[0]), True
+        if isinstance(e.func, ast.Attribute) and e.func.attr == 'copy' and not e.args and attr_chain(e.func.value):
+            return attr_chain(e.func.value), True
+        if isinstance(e.func, ast.Attribute) and e.func.attr in VIEW_METHODS and not e.args and attr_chain(e.func.value):
+            return attr_chain(e.func.value), False
+        if f in ('reversed', 'enumerate', 'iter') and e.args:
+            return _iter_base(e.args[0])
+    if isinstance(e, (ast.ListComp, ast.SetComp, ast.GeneratorExp)) and len(e.generators) == 1:
+        b, _ = _iter_base(e.generators[0].iter)
+        return b, not isinstance(e, ast.GeneratorExp)
+    return None, True
+
+
+def _restructures(st: ast.AST, base: str) -> T.List[ast.AST]:
+    """Sub-nodes of one statement that add/remove elements of the collection named `base`."""
+    out: T.List[ast.AST] = []
+    for n in walk_no_nested(st):
+        if isinstance(n, ast.Call) and isinstance(n.func, ast.Attribute) and n.func.attr in RESTRUCTURE and attr_chain(n.func.value) == base:
+            out.append(n)
+        elif isinstance(n, ast.Delete):
+            out += [t for t in n.targets if isinstance(t, ast.Subscript) and attr_chain(t.value) == base]
+        elif isinstance(n, ast.Assign):
+            out += [t for t in n.targets if isinstance(t, ast.Subscript) and isinstance(t.slice, ast.Slice) and attr_chain(t.value) == base]
+        elif isinstance(n, ast.AugAssign) and attr_chain(n.target) == base and isinstance(n.op, (ast.Add, ast.BitOr, ast.Sub, ast.BitAnd)):
+            out.append(n)
+    return out
+
+
+def _resolved_base(fn: U.FuncNode, e: ast.AST) -> T.Tuple[T.Optional[str], bool, T.Optional[str]]:
+    """(_iter_base through single-binding locals: `snap = dirs.copy(); for d in snap` draws from a snapshot of dirs,
+    the immediate object iterated)."""
+    base, snap = _iter_base(e)
+    first = base
+    al = U.single_def_aliases(fn)
+    for _ in range(3):
+        if base is None or base not in al:
+            break
+        b2, s2 = _iter_base(al[base])
+        if b2 is None or b2 == base:
+            break
+        base, snap = b2, snap or s2
+    return base, snap, first
+
+
+class IterSite(T.NamedTuple):
+    func: str
+    loop: ast.For
+    base: str
+    snapshot: bool
+    mutations: T.List[ast.AST]      # restructurings of base after which the loop can take another element
+    total: int                      # all restructurings of base inside the body
+
+
+def _iter_sites(mod: Module) -> T.Tuple[T.List[IterSite], int]:
+    sites: T.List[IterSite] = []
+    nloops = 0
+    for q, fn in mod.funcs().items():
+        loops = [st for st in walk_no_nested(fn) if isinstance(st, (ast.For, ast.AsyncFor))]
+        if not loops:
+            continue
+        cfg: T.Optional[CFG] = None
+        for lp in loops:
+            nloops += 1
+            root_base, root_snap, base = _resolved_base(fn, lp.iter)
+            snap = _iter_base(lp.iter)[1]
+            if base is None:
+                continue
+            if root_base != base and root_snap and not any(_restructures(st_, base) for b_ in lp.body for st_ in ast.walk(b_) if isinstance(st_, ast.stmt)):
+                # iterating a local that is itself a snapshot of another collection: judge the loop against that collection
+                base, snap = root_base, True   # type: ignore[assignment]
+            muts: T.List[T.Tuple[ast.AST, ast.AST]] = []
+            for st in lp.body:
+                for sub in ast.walk(st):
+                    if isinstance(sub, ast.stmt) and not isinstance(sub, (ast.FunctionDef, ast.AsyncFunctionDef, ast.ClassDef)):
+                        own = [x for x in _restructures(sub, base)] if not isinstance(sub, (ast.If, ast.For, ast.While, ast.With, ast.Try)) else []
+                        muts += [(sub, x) for x in own]
+            if not muts:
+                continue
+            if cfg is None:
+                cfg = CFG(fn)
+            it = _iter_node(cfg, lp)
+            live = []
+            for st, x in muts:
+                nodes = cfg.stmt_nodes(st)
+                if not nodes:
+                    raise Undecided(f'{q}: statement `{short(st)}` is not on the CFG')
+                if any(cfg.can_reach(n, it) for n in nodes):
+                    live.append(x)
+            sites.append(IterSite(q, lp, base, snap, live, len(muts)))
+    return sites, nloops
+
+
+R7_EXAMPLE = """
+import os
+def prune_bad(top, skip):
+    for root, dirs, files in os.walk(top):
+        for d in dirs:
+            if d in skip:
+                dirs.remove(d)
+def prune_good(top, skip):
+    for root, dirs, files in os.walk(top):
+        for d in dirs[:]:
+            if d in skip:
+                dirs.remove(d)
+def find_first(items, x):
+    for i in items:
+        if i == x:
+            items.remove(i)
+            break
+"""
+
+
+class WalkPrune(T.NamedTuple):
+    func: str
+    loop: ast.For          # the loop over the walk's directory list
+    walk_dirs: str
+    problems: T.List[T.Tuple[str, ast.AST]]
+    rows: int
+
+
+def _walk_prunes(mod: Module, q: str, fn: U.FuncNode) -> T.List[WalkPrune]:
+    """For `for root, dirs, files in os.walk(top)` with an inner loop over dirs that tests membership in an exclusion set:
+    on every excluded row the entry is removed from the walk's own list (top-down walk), so the walk does not descend into it."""
+    out: T.List[WalkPrune] = []
+    for w in [st for st in walk_no_nested(fn) if isinstance(st, ast.For) and isinstance(st.iter, ast.Call) and U.dotted(mod, st.iter.func) == 'os.walk']:
+        if not (isinstance(w.target, ast.Tuple) and len(w.target.elts) == 3 and all(isinstance(x, ast.Name) for x in w.target.elts)):
+            raise Undecided(f'{q}: os.walk loop target is not (root, dirs, files)')
+        wd = w.target.elts[1].id   # type: ignore[attr-defined]
+        problems: T.List[T.Tuple[str, ast.AST]] = []
+        td = kwarg(w.iter, 'topdown') if len(w.iter.args) < 2 else w.iter.args[1]   # type: ignore[attr-defined]
+        if td is not None and not (isinstance(td, ast.Constant) and td.value is True):
+            problems.append((f'os.walk is not top-down (`topdown={short(td)}`): removing entries from `{wd}` no longer stops the descent', w.iter))
+        nrows = 0
+        for inner in [st for st in w.body if isinstance(st, ast.For)]:
+            base = _resolved_base(fn, inner.iter)[0]
+            if base != wd or not isinstance(inner.target, ast.Name):
+                continue
+            var = inner.target.id
+            binds = {st.targets[0].id: st.value for b_ in inner.body for st in ast.walk(b_)
+                     if isinstance(st, ast.Assign) and len(st.targets) == 1 and isinstance(st.targets[0], ast.Name)}
+
+            def _mentions(e: ast.AST, depth: int = 0) -> bool:
+                ns = {n.id for n in ast.walk(e) if isinstance(n, ast.Name)}
+                return var in ns or (depth < 4 and any(_mentions(binds[n], depth + 1) for n in ns if n in binds))
+            tab = tables.extract(fn, body=inner.body, effects=_assign_eff, inline=True, inline_calls={'relpath', 'join', 'normpath'}, name=f'{q}:dirs')
+            # the exclusion test: `<something computed from the loop variable> in <a set that is not one of the walk's lists>`
+            excl = []
+            for a in tab.atoms():
+                if a.kind != 'in' or not a.args[1].isidentifier() or a.args[1] in {x.id for x in w.target.elts}:   # type: ignore[attr-defined]
+                    continue
+                try:
+                    left = ast.parse(a.args[0], mode='eval').body
+                except SyntaxError:
+                    continue
+                if _mentions(left):
+                    excl.append(a)
+            if len(excl) != 1:
+                continue
+            for r in tab.rows:
+                if r.conds.get(excl[0]) is not True:
+                    continue
+                nrows += 1
+                removed = any(e == f'call {wd}.remove({var})' for e in r.effects)
+                created = [e for e in r.effects if e.startswith('call ') and ('.makedirs(' in e or 'self.do_' in e or 'self.copy' in e)]
+                if not removed:
+                    others = [e for e in r.effects if '.remove(' in e]
+                    problems.append((f'an excluded directory (`{excl[0]!r}`) is not removed from the walk\'s own list `{wd}`'
+                                     + (f' (the row does {others[0]} instead)' if others else '') + ': os.walk descends into it and its files are installed', inner))
+                if created:
+                    problems.append((f'an excluded directory still reaches {created[0]}', inner))
+        out.append(WalkPrune(q, w, wd, problems, nrows))
+    return out
+
+
+def r7(ctx: RuleCtx) -> None:
+    exm = U.synthetic_module('example/walk.py', R7_EXAMPLE)
+    sites, _ = _iter_sites(exm)
+    got = {s.func: (s.snapshot, len(s.mutations)) for s in sites}
+    if got != {'prune_bad': (False, 1), 'prune_good': (True, 1), 'find_first': (False, 0)}:
+        raise AnalysisError(f'C11.R7 built-in example not recognised: {got}')
+    ctx.ok('built-in example: removing from the list being iterated is flagged; iterating `dirs[:]`, and remove-then-break, are clean', nontrivial=False)
+    total_loops = 0
+    nsnap = 0
+    for rel in (MIN, UNI):
+        mod = ctx.repo.module(rel)
+        sites, nloops = _iter_sites(mod)
+        total_loops += nloops
+        for s_ in sites:
+            if s_.snapshot:
+                nsnap += 1
+                ctx.ok(f'{s_.func}: loop over a snapshot of `{s_.base}` ({short(s_.loop.iter)}); the body restructures `{s_.base}` {s_.total} time(s)')
+                continue
+            if s_.mutations:
+                m0 = s_.mutations[0]
+                ctx.violation(mod, s_.func, f'for {norm(s_.loop.target)} in {norm(s_.loop.iter)}: {short(m0, 60)}',
+                              f'the loop iterates `{s_.base}` itself while its body does `{short(m0, 60)}` and then takes the next element: after a removal the '
+                              f'following element is skipped (after an insertion one is visited twice); iterate a copy (`{s_.base}[:]`). In do_copydir this installs '
+                              f'an excluded directory that follows another excluded one', s_.loop)
+            else:
+                ctx.ok(f'{s_.func}: `{s_.base}` is restructured inside its loop only on paths that leave the loop')
+    ctx.note(f'{total_loops} for-loops scanned in minstall.py / scripts/uninstall.py')
+    ctx.floor('loops that restructure the collection they draw from (over a snapshot)', nsnap, 1)
+    # the snapshot must not defeat the pruning: the removal target is the walk's own list
+    m = _model(ctx)
+    nw = 0
+    for name, fn in m.inst.items():
+        for wp in _walk_prunes(m.mod, f'Installer.{name}', fn):
+            if not wp.rows and not wp.problems:
+                continue
+            nw += 1
+            for msg, node in wp.problems:
+                ctx.violation(m.mod, wp.func, node, msg, node)
+            if not wp.problems:
+                ctx.ok(f'{wp.func}: every excluded directory is removed from os.walk\'s own list `{wp.walk_dirs}` ({wp.rows} row(s)); the walk is top-down')
+    ctx.floor('os.walk loops that prune excluded directories', nw, 1)
+
+
 RULES = [
     Rule('C11.R1', 'mutating calls only in dry-run wrappers', r1),
     Rule('C11.R2', 'destinations rooted under DESTDIR', r2),
@@ -2261,4 +2496,5 @@ RULES = [
     Rule('C11.R5', 'set_mode / sanitize_permissions / umask tables', r5),
     Rule('C11.R5b', 'install_mode string -> mode bits table (ls -l notation)', r5b),
     Rule('C11.R6', 'pre-existing entry at a symlink destination is removed under a no-follow probe', r6),
+    Rule('C11.R7', 'no restructuring of a collection while iterating it; os.walk pruning in place', r7),
 ]
